@@ -185,6 +185,9 @@ MUTANTS = [
     "\u0967", "\u00b2", "1\u00b2", "\u2460", "1\u0301", "1\x00", "\x001", "0.0000001", "1e-7x", "-0", "+0", "-0.0", "-0e5",
     "-.0", "-0x0", "00x10", "0x10.8", "1/2", "1e", "e5", "E5", ".e", "1 e5", "1e 5", "true", "null", "undefined", "[]",
     "0.1e", "0.1e+", "..1", "+.e1", "1E", "1E+", "010", "08", "-08.5", "0e", "0e+", "0.e1",
+    # more than one sign, a sign after the body, signs around every kind of body
+    "--Infinity", "+-Infinity", "-+Infinity", "++Infinity", "---Infinity", "Infinity-", "Infinity+", "- Infinity", "-Infinity-",
+    "--0", "++0", "--.5", "+-.5", "--1e3", "-+1e3", "--0x10", "+-0b1", "1-", "1+", ".5-", "1e3-", "--", "+-", "-+", "++",
 ]
 
 
